@@ -88,9 +88,12 @@ def get_members_value(context):
         if keyword.arg == "members":
             arg = keyword.value
             if isinstance(arg, ast.Call):
-                return {"Function": getattr(arg.func, "id", arg.func)}
+                func = getattr(arg.func, "id", None) or ast.unparse(arg.func)
+                return {"Function": func}
             else:
-                value = arg.id if isinstance(arg, ast.Name) else arg
+                value = (
+                    arg.id if isinstance(arg, ast.Name) else ast.unparse(arg)
+                )
                 return {"Other": value}
 
 
